@@ -556,9 +556,9 @@ func vfC14ForgedFinished(t *testing.T, res *vfResult, cfgName, forger, kind stri
 // vfC14FatalOnEstablished: a session established by a full handshake and held in both stores; later the victim is
 // made to send a fatal alert on that connection (unprotected application data arrives). From then on the victim's
 // store must not hold the session, whatever version range the victim was configured with.
-func vfC14FatalOnEstablished(t *testing.T, res *vfResult, cfgName, victim string, dual bool) {
+func vfC14FatalOnEstablished(t *testing.T, res *vfResult, cfgName, victim string, dual, migrate bool) {
 	res.Eval(1)
-	id := fmt.Sprintf("fatal-on-established|%s|victim=%s|dualstack=%v", cfgName, victim, dual)
+	id := fmt.Sprintf("fatal-on-established|%s|victim=%s|dualstack=%v|peer-moved=%v", cfgName, victim, dual, migrate)
 	replay := map[string]any{"fatal_on_established": id}
 	cS, sS := vfNewMemStore("c"), vfNewMemStore("s")
 	cfg := vfC14Cfg(cfgName, "same")
@@ -615,6 +615,33 @@ func vfC14FatalOnEstablished(t *testing.T, res *vfResult, cfgName, victim string
 	p.C.StartPump()
 	p.S.StartPump()
 	v, peer := vfSideOf(p, victim)
+	peerAddr := peer.EP.addr
+	if migrate {
+		// the peer's address changes (NAT rebinding); with connection IDs and return routability the victim validates
+		// the new path and from then on sends there
+		peerAddr = vfAddr("10.0.0.9:9999")
+		n.Alias(string(peerAddr), peer.EP)
+		n.SetOnSend(func(n *vfNet, w *vfWire) {
+			from := vfAddrOf(w.From)
+			if w.From == peer.Name {
+				from = peerAddr
+			}
+			n.Deliver(w.Dst, w.Data, from)
+		})
+		for k := 0; k < 3; k++ {
+			_, _ = peer.Conn.Write([]byte(fmt.Sprintf("from the new address %d", k)))
+			time.Sleep(200 * time.Millisecond)
+			synctest.Wait()
+		}
+		if v.Conn.RemoteAddr().String() != string(peerAddr) {
+			res.Count("fatal_on_established_migration_not_followed", 1)
+			p.Close()
+			synctest.Wait()
+
+			return
+		}
+		res.Count("fatal_on_established_after_peer_moved", 1)
+	}
 	before := len(n.Emissions(v.Name))
 	// the peer's (correctly protected) record carries an alert whose body does not decode: the victim answers with a
 	// fatal decode_error. (An unprotected record would be discarded without effect on a protected association.)
@@ -635,17 +662,14 @@ func vfC14FatalOnEstablished(t *testing.T, res *vfResult, cfgName, victim string
 
 		return
 	}
-	n.Deliver(string(v.EP.addr), rec, peer.EP.addr)
+	n.Deliver(string(v.EP.addr), rec, peerAddr)
 	time.Sleep(100 * time.Millisecond)
 	synctest.Wait()
-	fatal := false
-	for _, w := range n.Emissions(v.Name)[before:] {
-		if strings.Contains(vfKind(w.Data), "type21") {
-			fatal = true
-		}
-	}
+	// (with connection IDs the alert leaves as a tls12_cid record: what is observable is that the victim emitted
+	// something in answer and closed its connection, which only a fatal alert of its own does here)
+	fatal := len(n.Emissions(v.Name)) > before && (v.Conn.isConnectionClosed() || v.EP.IsClosed() || v.PumpErr() != nil)
 	res.NonTrivial(id)
-	if !fatal || !v.EP.IsClosed() && v.PumpErr() == nil {
+	if !fatal {
 		res.Count("fatal_on_established_no_fatal_alert_provoked", 1)
 		p.Close()
 		synctest.Wait()
@@ -654,7 +678,7 @@ func vfC14FatalOnEstablished(t *testing.T, res *vfResult, cfgName, victim string
 	}
 	res.Count("fatal_alerts_provoked_on_established_sessions", 1)
 	if held() {
-		res.Violate(fmt.Sprintf("C14:session-still-in-%s-store-after-fatal-alert:established:dualstack=%v", map[string]string{"c": "client", "s": "server"}[victim], dual),
+		res.Violate(fmt.Sprintf("C14:session-still-in-%s-store-after-fatal-alert:established:dualstack=%v:peer-moved=%v", map[string]string{"c": "client", "s": "server"}[victim], dual, migrate),
 			fmt.Sprintf("%s: the %s sent a fatal alert on the connection of session %x, yet its store still holds that session", id, v.Name, sid), replay)
 	}
 	p.Close()
@@ -727,16 +751,20 @@ func TestVF_C14(t *testing.T) {
 	type fe struct {
 		cfg, victim string
 		dual        bool
+		migrate     bool
 	}
 	var fes []fe
 	for _, cfg := range []string{"ecdsa", "ecdsa-cid", "ecdsa-nohv"} {
 		for _, victim := range []string{"c", "s"} {
 			for _, dual := range []bool{false, true} {
-				fes = append(fes, fe{cfg, victim, dual})
+				fes = append(fes, fe{cfg, victim, dual, false})
+				if cfg == "ecdsa-cid" {
+					fes = append(fes, fe{cfg, victim, dual, true})
+				}
 			}
 		}
 	}
-	vfBubbles(t, len(fes), func(t *testing.T, i int) { vfC14FatalOnEstablished(t, res, fes[i].cfg, fes[i].victim, fes[i].dual) })
+	vfBubbles(t, len(fes), func(t *testing.T, i int) { vfC14FatalOnEstablished(t, res, fes[i].cfg, fes[i].victim, fes[i].dual, fes[i].migrate) })
 	res.Floor("fatal_alerts_provoked_on_established_sessions", 6)
 	res.Floor("abbreviated_agreeing", 20)
 	res.Floor("fallback_full", 5)
